@@ -140,6 +140,16 @@ struct IfaceA : nop::Interface<IfaceA> {
   NOP_METHOD_SEL(127, Fixed127, void());
   NOP_INTERFACE_API(Add, Name, A_rather_long_method_name_0123456789, Fixed127);
 };
+// a method whose name is also an object-like macro where the interface is declared (as <windows.h> does with GetMessage):
+// the selector is the hash of the name as written, not of what the macro expands to
+#define GetMessage GetMessageA
+struct IfaceM : nop::Interface<IfaceM> {
+  NOP_INTERFACE("IfaceM");
+  NOP_METHOD(GetMessage, int(int));
+  NOP_INTERFACE_API(GetMessage);
+};
+static const std::uint64_t kAliasedSelector = IfaceM::GetMessage::Selector;
+#undef GetMessage
 struct Iface32 : nop::Interface<Iface32> {
   NOP_INTERFACE32("Iface32\xc3\xa9");
   NOP_METHOD(Add, int(int, int));
@@ -261,6 +271,7 @@ int main(int argc, char** argv) {
       R.nontrivial(cid);
       if (IfaceA::GetInterfaceHash() != ha) R.viol("C18|interface-hash", cid, "interface hash differs from SipHash-2-4 of the name under the interface keys");
     }
+    check_selector<uint64_t>("IfaceM", "GetMessage", siphash24_cstr("IfaceM", kInterfaceKey0, kInterfaceKey1), kAliasedSelector);
     check_selector<uint64_t>("IfaceA", "Add", ha, IfaceA::Add::Selector);
     check_selector<uint64_t>("IfaceA", "Name", ha, IfaceA::Name::Selector);
     check_selector<uint64_t>("IfaceA", "A_rather_long_method_name_0123456789", ha, IfaceA::A_rather_long_method_name_0123456789::Selector);
